@@ -128,8 +128,11 @@ CLAIMED = {
              "allocations, two threads that obtained system bytes hold different ones (C06_system_bytes_distinct: invariant over all schedules + injectivity of next^i modulo "
              "2^32); the same operations without the lock admit a schedule where two threads get the same value (C06_unlocked_race). A waiting requester receives exactly the "
              "first arrival with its system bytes for every arrival sequence (C06_reply_to_requester) and all other messages reach the application exactly once in arrival "
-             "order (C06_others_in_order). The implementation is searched for failing schedules (every single preemption point at bytecode granularity) and driven with "
-             "concurrent requesters, bursts and reconnects.",
+             "order (C06_others_in_order). The hand-over to the dispatcher thread, with the loop shape harness/gen_dispatcher.py reads off the source (trigger cleared before the "
+             "queue is drained): under every interleaving of queueing (put, set) and dispatcher steps no block is left queued with the dispatcher asleep and nobody about to wake "
+             "it, and blocks are conserved (C06_dispatcher_no_lost_wakeup, C06_dispatcher_conserves_blocks; clearing after the drain strands a block: C06_clear_after_drain_strands). "
+             "The implementation is searched for failing schedules (every single preemption point at bytecode granularity), driven with concurrent requesters, bursts, reconnects "
+             "(also in the middle of a message), a block forced to arrive exactly at the dispatcher's empty check, and a data message carrying the system bytes of an unanswered linktest.",
         note=NOTE_COMMON + " Partial on 'interleavings': a locked body is ONE atomic step of the model (threading.Lock's mutual exclusion and the atomicity of a single attribute "
              "load/store under the GIL are trusted); 'one at a time' for application callbacks rests on there being one dispatcher thread, which is observed (thread count, "
              "overlap of callbacks) and not proven; timers are outside.",
